@@ -377,7 +377,7 @@ impl<'a> SrcGen<'a> {
         if self.rng.chance(p, 10) {
             d.m = Some(self.boxs(zero));
         }
-        if self.rng.chance(p, 25) {
+        if self.rng.chance(p, 70) {
             d.b = Some(self.boxs(zero));
         }
         if self.rng.chance(p, 10) {
@@ -474,14 +474,24 @@ fn page_content(g: &mut SrcGen, d: &mut D) {
     }
 }
 
+/// an index that is valid (< n) except with probability 1/10
+fn idx(rng: &mut Rng, n: usize) -> u64 {
+    let n1 = n.max(1) as u64;
+    if rng.chance(1, 10) {
+        n1 + rng.below(2)
+    } else {
+        rng.below(n1)
+    }
+}
+
 fn gen_range(rng: &mut Rng, n: usize) -> String {
     let n1 = n.max(1) as u64;
     match rng.below(12) {
         0 | 1 => "all".into(),
-        2 | 3 => format!("s{}", rng.below(n1 + 1)),
+        2 | 3 => format!("s{}", idx(rng, n)),
         4 | 5 | 6 => {
-            let a = rng.below(n1 + 1);
-            let b = rng.below(n1 + 1);
+            let a = idx(rng, n);
+            let b = idx(rng, n);
             if rng.chance(9, 10) {
                 format!("r{}-{}", a.min(b), a.max(b))
             } else {
@@ -577,14 +587,14 @@ fn gen(rng: &mut Rng, tier: Tier) -> Vec<Case> {
             0 | 1 => (format!("split {}", gen_split_mode(rng, n, true)), "split"),
             2 | 3 => (format!("splitmerge {}", gen_split_mode(rng, n, false)), "splitmerge"),
             4 => (format!("merge {}", (0..1 + rng.below(3)).map(|_| gen_range(rng, n)).collect::<Vec<_>>().join(";")), "merge"),
-            5 => (format!("extract page {}", rng.below(n as u64 + 1)), "extract"),
+            5 => (format!("extract page {}", idx(rng, n)), "extract"),
             6 => (format!("extract pages {}", gen_list(rng, n, true)), "extract"),
             7 => (format!("extract range {}", gen_range(rng, n)), "extract"),
             8 => (format!("reorder {}", if rng.chance(1, 2) { gen_perm(rng, n) } else { gen_list(rng, n, true) }), "reorder"),
             9 => ("reverse".to_string(), "reverse"),
-            10 => (format!("swap {} {}", rng.below(n as u64 + 1), rng.below(n as u64 + 1)), "swap"),
-            11 => (format!("move {} {}", rng.below(n as u64 + 1), rng.below(n as u64 + 1)), "move"),
-            12 | 13 => (format!("rotate {} {}", gen_range(rng, n), rng.pick(&degs)), "rotate"),
+            10 => (format!("swap {} {}", idx(rng, n), idx(rng, n)), "swap"),
+            11 => (format!("move {} {}", idx(rng, n), idx(rng, n)), "move"),
+            12 | 13 => (format!("rotate {} {}", gen_range(rng, n), if rng.chance(9, 10) { rng.pick(&degs[..11]) } else { rng.pick(&degs) }), "rotate"),
             _ => (format!("rotate2 {} {} {} {}", gen_range(rng, n), rng.pick(&degs[..11]), gen_range(rng, n), rng.pick(&degs[..11])), "rotate2"),
         };
         let tags = format!("{} {} n{} nt", kind, if zero { "origin0" } else { "origin-any" }, n);
